@@ -729,7 +729,8 @@ impl SmithNormalForm {
             }
             let diag: Vec<i128> = (0..n).map(|j| self.rows[j][j]).collect();
             //eprintln!("diag {diag:?}");
-            let prod = diag.iter().product::<i128>();
+            // Several placeholder entries equal to h can exceed 128 bits.
+            let prod = diag.iter().fold(1i128, |acc, &d| acc.saturating_mul(d));
             if prod == self.h as i128 {
                 if self.verbose {
                     eprintln!("Found basis of relation lattice");
